@@ -149,7 +149,7 @@ func c05Mint(curve cert.Curve, cipher string, ca cert.Certificate, caKey []byte,
 		c05MintIdent(w, n, certNameOf(n), addrOf(n), ca, caKey, true, nb, na)
 	}
 	c05MintIdent(w, "X", certNameOf("X"), addrOf("X"), ca, caKey, true, nb, vtime.Epoch.Add(-vtime.Minute))   // expired
-	c05MintIdent(w, "Y", certNameOf("Y"), addrOf("Y"), ca, caKey, true, nb, vtime.Epoch.Add(vtime.Hour))      // expires one hour after Epoch
+	c05MintIdent(w, "Y", certNameOf("Y"), addrOf("Y"), ca, caKey, true, nb, vtime.Epoch.Add(90*vtime.Minute)) // expires 90 minutes after Epoch
 	c05MintIdent(w, "U", certNameOf("U"), addrOf("U"), caU, caUKey, false, nb, na)                            // untrusted CA
 	// W: a valid certificate, used with a private key that is not the private half of the certified key
 	other := c05MintIdent(w, "W-other", "c05-w-other", addrOf("W"), ca, caKey, true, nb, na)
@@ -873,7 +873,13 @@ func (s *c05Sim) apply(e c05Ev) {
 		pkt := mu.f(src.b, other, s.w.d)
 		oc := s.deliver(mm, pkt, e.Msg, nil)
 		cross := ""
-		if src.stage == 2 && mm.init && src.reply != mm.sent {
+		eff := src // the pool message whose body is actually delivered (a splice may substitute another one's)
+		for _, mg := range s.msgs {
+			if len(pkt) >= header.Len && bytes.Equal(mg.b[header.Len:], pkt[header.Len:]) {
+				eff = mg
+			}
+		}
+		if eff.stage == 2 && mm.init && (eff.reply != mm.sent || !eff.exact) {
 			cross = " cross-session"
 		} else if src.stage == 1 && !mm.init && e.Mut == 0 {
 			cross = " genuine/replayed stage 1"
@@ -1018,7 +1024,7 @@ func c05Casts(c *mc.Check, worlds []*c05World) []c05CastJob {
 				add(w, full, vtime.Epoch, i+"-> "+r+"<-")
 			}
 		}
-		// Y expires at Epoch+1h: valid early, expired late
+		// Y expires at Epoch+90min: valid early, expired late
 		add(w, full, vtime.Epoch, "Y-> B<-", "A-> Y<-")
 		add(w, full, late, "Y-> B<-", "A-> Y<-", "A-> B<-")
 	}
@@ -1353,6 +1359,10 @@ func c05SetIndex(pkt []byte, idx uint32) []byte {
 // apply executes one event on the real nodes and judges every hostmap entry afterwards.
 func (n *c05Net) apply(e c05NEv) {
 	n.trace = append(n.trace, n.label(e))
+	if e.Msg >= len(n.pool) || e.Msg2 >= len(n.pool) || e.Re >= len(n.pool) {
+		n.trace = append(n.trace, "(previous event not applicable: no such message)")
+		return // only reachable from the scripted probe history when the handshakes it relies on do not happen
+	}
 	var toNode string  // node that received a datagram in this event
 	var pkt []byte     // that datagram
 	var peer *c05Peer  // who produced it (nil: a real node's / mutated pool message, resolved by body comparison)
@@ -1814,7 +1824,8 @@ func TestVerifC05(t *testing.T) {
 		worlds = append(worlds, w)
 	}
 	capped := false
-	part1Stop := func() bool { return st.viol.Load() > 100 || c.Elapsed() > 0.6*budget }
+	only := os.Getenv("VERIF_C05_ONLY") // "manager": skip part 1 (used to demonstrate detection at manager level alone)
+	part1Stop := func() bool { return only == "manager" || st.viol.Load() > 100 || c.Elapsed() > 0.6*budget }
 
 	// ---- part 1a: closure search per cast
 	jobs := c05Casts(c, worlds)
@@ -1846,7 +1857,10 @@ func TestVerifC05(t *testing.T) {
 			closureDepth = res.MaxDepth
 		}
 	}
-	if castsDone < len(jobs) {
+	if only == "manager" {
+		capped = true
+		c.Capped("VERIF_C05_ONLY=manager: part 1 skipped")
+	} else if castsDone < len(jobs) {
 		capped = true
 		c.Capped(fmt.Sprintf("time budget: %d of %d casts searched to closure", castsDone, len(jobs)))
 	}
@@ -1878,7 +1892,7 @@ func TestVerifC05(t *testing.T) {
 	}
 	depth1 := 0
 	for wi, w := range worlds {
-		if wi > 0 && !c.Thorough() {
+		if (wi > 0 && !c.Thorough()) || st.viol.Load() > 0 || only == "manager" { // premises of the later phases may not hold once the property is broken
 			break
 		}
 		n, done := c05DepthOne(c, st, w, muts, vars, par)
@@ -1907,6 +1921,10 @@ func TestVerifC05(t *testing.T) {
 	probe := []c05NEv{{K: "startVB", Msg: -1, Msg2: -1, Re: -1}, {K: "wire", Msg: 0, Msg2: -1, Re: -1}, {K: "wire", Msg: 1, Msg2: -1, Re: -1}, {K: "stub1", Id: "C", Msg: -1, Msg2: -1, Re: -1}}
 	k1, w1, _ := runNet(probe)
 	k2, w2, _ := runNet(probe)
+	if st.viol.Load() > 0 {
+		c.Set("note", "violations found: remaining phases and vacuity guards skipped")
+		return
+	}
 	if k1 != k2 || w1 != w2 {
 		c.Broken("manager level: replay is not deterministic:\n%s %s\n%s %s", k1, w1, k2, w2)
 	}
@@ -1982,7 +2000,7 @@ func TestVerifC05(t *testing.T) {
 		c.Require(has("manager: stub "+id+" sends a stage 1", "-> 0 new") > 0 && has("manager: stub "+id+" sends a stage 1", "-> 1 new") == 0, "manager: stub %s not refused as initiator", id)
 		c.Require(has("manager: stub "+id+" answers", "-> 0 new") > 0 && has("manager: stub "+id+" answers", "-> 1 new") == 0, "manager: stub %s not refused as responder", id)
 	}
-	c.Require(has("verifier: certificate of Y", "-> ok") > 0 && has("verifier: certificate of Y", "-> expired") > 0, "Y (expires at Epoch+1h) not seen both valid and expired")
+	c.Require(has("verifier: certificate of Y", "-> ok") > 0 && has("verifier: certificate of Y", "-> expired") > 0, "Y (expires at Epoch+90min) not seen both valid and expired")
 	c.Require(has("manager: stub Y sends a stage 1 ->", "1 new") > 0 && has("manager: stub Y sends a stage 1 (late)", "-> 0 new") > 0 && has("manager: stub Y sends a stage 1 (late)", "-> 1 new") == 0, "manager: Y not accepted early / refused late")
 	c.Require(has("completed: initiator W") == 0 && has("completed:", "with W") > 0, "W (certificate without its private key): expected to be reported by responders and never to complete itself")
 	// the adversary: accepted as itself, refused with anybody else's certificate
